@@ -12,6 +12,7 @@ import (
 	"sort"
 	"strings"
 	"sync"
+	"sync/atomic"
 	"time"
 
 	appsv1 "k8s.io/api/apps/v1"
@@ -343,6 +344,10 @@ func invariant(r result, hist []*op, seedLen int) (fails []fw.Failure, outcome s
 	if ferr != nil {
 		return []fw.Failure{{Class: "harness: fresh engine rejects the current objects", Detail: ferr.Error()}}, ""
 	}
+	// informational only (GetPeersList is not part of the statement): does the peer list depend on the history?
+	if peerList(r.pe) != peerList(fr) {
+		peerListDiffers.Add(1)
+	}
 	w := r.m.world()
 	last := "seed"
 	if len(hist) > seedLen {
@@ -383,6 +388,26 @@ func invariant(r result, hist []*op, seedLen int) (fails []fw.Failure, outcome s
 		}
 	}
 	return fails, strings.Join(outs, " ")
+}
+
+var peerListDiffers atomic.Int64
+
+func peerList(pe *eval.PolicyEngine) (res string) {
+	defer func() {
+		if x := recover(); x != nil {
+			res = fmt.Sprintf("PANIC %v", x)
+		}
+	}()
+	ps, err := pe.GetPeersList()
+	if err != nil {
+		return "error"
+	}
+	var s []string
+	for _, p := range ps {
+		s = append(s, p.String())
+	}
+	sort.Strings(s)
+	return strings.Join(s, ",")
 }
 
 func (m model) describe() []string {
@@ -619,6 +644,7 @@ func Run(r *fw.Run) {
 			WallS: time.Since(t0).Seconds(), Note: fmt.Sprintf("states=%d depth=%d fixpoint=%v levels=%v", st.States, st.Depth, st.Fixpoint, st.LevelSizes)})
 	}
 	r.Extra["per_seed"] = stats
+	r.Extra["informational_states_where_GetPeersList_differs_from_a_fresh_engine"] = peerListDiffers.Load()
 	var smp []any
 	for _, s := range sampleHist {
 		smp = append(smp, s)
